@@ -415,6 +415,7 @@ class H(Harness):
                  'generated_cases_dropped_float_boundary': case.get('_dropped', 0),
                  'runs': 0, 'samples_taken': 0, 'occupations': 0, 'runs_raised': 0, 'runs_more_points_than_elements': 0,
                  'runs_after_inplace_edit': 0, 'runs_after_setNetworkGenerator': 0}
+        kept = []
         for run in self._runs(case):
             ed = run.get('edit')
             if ed:
@@ -438,6 +439,7 @@ class H(Harness):
             orc = install(Oracle(seed=0, script={'shuffle': [run['perm']]}))
             exc = None
             series = None
+            res = None
             try:
                 rc = e.run(fatal=True)
                 res = rc['results']
@@ -459,8 +461,16 @@ class H(Harness):
                          'proto_nodes': proto_nodes, 'proto_edges': proto_edges,
                          'proto_adj': [sorted(proto_adj[u]) if u in proto_adj else None for u in range(n)],    # keyed by LABEL, as adj0
                          'shuffles': [list(s[1]) for s in orc.values('shuffle')]})
+            kept.append(res)
             if exc is not None:
                 break
+        # the results handed out by every run, read again after ALL runs are over: a later run must not reach into them
+        for ro, res in zip(robs, kept):
+            later = None
+            if res is not None:
+                ps = res.get(base.P, []); gs = res.get(base.GCC, [])
+                later = [(float(a), int(b)) for a, b in zip(ps, gs)] if len(ps) == len(gs) and not (set(res.keys()) - {base.P, base.GCC}) else None
+            ro['series_after_all_runs'] = later
         return {'stats': stats, 'points': points, 'runs': robs}
 
     # ---------------------------------------------------------------- D
@@ -483,6 +493,8 @@ class H(Harness):
                                                                   'samples_taken': [s['p'] for s in obs['samples']]}}]
         if not obs['proto_same']:
             v.append({'signature': 'prototype-modified', 'detail': None})
+        if 'series_after_all_runs' in obs and obs['series_after_all_runs'] != obs['series']:
+            v.append({'signature': 'results-of-a-run-changed-by-a-later-run', 'detail': {'when_returned': obs['series'], 'after_all_runs': obs['series_after_all_runs']}})
         if sorted(obs['proto_nodes']) != list(range(n)):
             return v          # outside the quantifier of the property (nodes labelled 0..N-1, inserted in any order)
         # the working copy is a copy of the prototype as it is now; the occupation order is its shuffled element list
